@@ -28,7 +28,8 @@ type RSource struct {
 	FailAt   int    `json:"failat"`   // >= 0: the source fails after delivering this many bytes
 	FailData bool   `json:"faildata"` // the error comes together with the last bytes before it
 	Released int    `json:"released"` // >= 0: the source is gated after this many bytes
-	After    string `json:"after"`    // behaviour at the gate: "block" | "error"
+	After    string `json:"after"`    // behaviour at the gate: "block" | "error"; "garbage": unrelated bytes follow (no gate)
+	Garbage  int    `json:"garbage"`  // After == "garbage": the offset at which the unrelated bytes start
 }
 
 // RSeg is one use of the Reader: construction or Reset, then reads.
@@ -116,6 +117,8 @@ type REvent struct {
 	HdrCheck   bool   `json:"hdrCheck"`
 	Group      string `json:"group"`
 	GClause    string `json:"groupClause"`
+	WantLen    int    `json:"wantLen"`    // >= 0: the payload an encoder was asked to write into this stream / member
+	WantDigest string `json:"wantDigest"` // its digest
 	// Src
 	Pos int `json:"pos"`
 	// Read / Src
@@ -243,12 +246,13 @@ func (b *byteSource) ReadByte() (byte, error) {
 // preserved; every clause of the contract that looks at an individual event
 // (errors, gate, sticky results, counts) still sees it in order.
 type rrec struct {
-	id    string
-	emit  func(interface{})
-	pSrc  *REvent
-	pRead *REvent
-	given int
-	dead  bool // the next error event carries dead = TRUE
+	id      string
+	emit    func(interface{})
+	pSrc    *REvent
+	pRead   *REvent
+	given   int
+	dead    bool // the next error event carries dead = TRUE
+	lastErr string
 }
 
 func (r *rrec) flush() {
@@ -284,6 +288,7 @@ func (r *rrec) gate() {
 
 func (r *rrec) read(k, n int, err, errd string, ok bool, pan string) {
 	r.given += n
+	r.lastErr = err
 	if err == "nil" && pan == "" && n >= 0 && n <= k {
 		if p := r.pRead; p != nil && p.Ok == ok {
 			p.Cnt++
@@ -485,10 +490,24 @@ func execReaderCase(c *RCase, arch int, emit func(interface{})) {
 		if c.Kind == "gzip" && !multi {
 			orc = oracleFor(c.Kind, served, dict, false)
 		}
+		// what the encoders were asked to write (known when the stream comes straight from encoders)
+		var payloads [][]byte
+		appendedOnly := true
+		for _, m := range seg.Stream.Mut {
+			if m.Op != "append" && m.Op != "appendzero" {
+				appendedOnly = false
+			}
+		}
+		if len(seg.Stream.Enc) > 0 && seg.Stream.Synth == nil && seg.Stream.Hex == "" && appendedOnly {
+			for _, e := range seg.Stream.Enc {
+				payloads = append(payloads, e.Data.Bytes())
+			}
+		}
 		nmem := 1
 		if seg.Members {
 			nmem = 1 << 30
 		}
+		var kept []GzHeader // member mode: the Header values a caller keeps across Reset
 		memberBase, memberOut := 0, 0
 		for m := 0; m < nmem; m++ {
 			rec.given = 0
@@ -513,6 +532,30 @@ func execReaderCase(c *RCase, arch int, emit func(interface{})) {
 			if b.GClause == "" {
 				b.GClause = "NONE.group"
 			}
+			b.WantLen = -1
+			if payloads != nil {
+				var want []byte
+				known := false
+				switch {
+				case seg.Members:
+					if m < len(payloads) {
+						want, known = payloads[m], true
+					}
+				case c.Kind == "gzip" && multi:
+					if len(seg.Stream.Mut) == 0 { // nothing appended after the last member
+						for _, p := range payloads {
+							want = append(want, p...)
+						}
+						known = true
+					}
+				default:
+					want, known = payloads[0], true
+				}
+				if known {
+					hh := sha1.Sum(want)
+					b.WantLen, b.WantDigest = len(want), hex.EncodeToString(hh[:])[:16]
+				}
+			}
 			if have {
 				b.Ctor = "reset"
 			}
@@ -524,6 +567,9 @@ func execReaderCase(c *RCase, arch int, emit func(interface{})) {
 				seg.srcObj, seg.ss, seg.rest, seg.exact = src, ss, rest, b.Exact
 			} else {
 				src, ss, rest, b.Exact = seg.srcObj, seg.ss, seg.rest, seg.exact
+			}
+			if seg.Src.After == "garbage" {
+				b.DecAt, _ = decodableAt(c.Kind, morc, seg.Src.Garbage, multi)
 			}
 			if seg.Src.Released >= 0 && ss != nil {
 				b.Released = seg.Src.Released
@@ -561,13 +607,9 @@ func execReaderCase(c *RCase, arch int, emit func(interface{})) {
 			endRead := func(cls string) {}
 			_ = endRead
 			if cerr != nil {
+				// compress/gzip answers an empty input with io.EOF (an empty file) and everything else
+				// that is cut short with io.ErrUnexpectedEOF: the class is logged as returned
 				cls, det := errClassR(cerr, ss)
-				if cls == "eof" {
-					cls = "uxeof" // a container header cut short at its first byte
-					if len(mdata)-memberBase == 0 {
-						cls = "eof"
-					}
-				}
 				rec.read(0, 0, cls, det, true, "")
 			} else {
 				reads := seg.Reads
@@ -659,6 +701,9 @@ func execReaderCase(c *RCase, arch int, emit func(interface{})) {
 			if !seg.Members {
 				break
 			}
+			if u.gzHdr != nil && rerrClassOf(rec) == "eof" {
+				kept = append(kept, u.gzHdr())
+			}
 			// next member
 			if morc.RefVerdict != "eof" || len(morc.MemberEnds) == 0 {
 				break
@@ -669,8 +714,19 @@ func execReaderCase(c *RCase, arch int, emit func(interface{})) {
 				break // the source is not where the next member starts; C08.member_end has reported it
 			}
 		}
+		if seg.Members && seg.Hdr && len(kept) > 0 {
+			// the headers a caller kept while reading member by member must still be the members' own
+			all := oracleFor(c.Kind, data, dict, true)
+			ok := len(kept) <= len(all.Hdrs)
+			for i := 0; ok && i < len(kept); i++ {
+				ok = sameGz(kept[i], all.Hdrs[i])
+			}
+			emit(REvent{Ev: "Hdrs", Case: c.ID, Ok: ok, N: len(kept)})
+		}
 	}
 }
+
+func rerrClassOf(r *rrec) string { return r.lastErr }
 
 // decodableAt: how many output bytes are decodable once the first p bytes
 // have been delivered, and whether asking for more is legitimate at all.
